@@ -2,6 +2,8 @@
 use crate::rt::{Actor, DetResult, Rng};
 
 pub mod mutex;
+pub mod sem;
+pub mod syncflag;
 
 /// a det-mode scenario ready to run
 pub struct Built {
@@ -20,12 +22,14 @@ pub struct Built {
 pub fn build_det(family: &str, rng: &mut Rng, tier: u32) -> Option<Built> {
     match family {
         "mutex" => Some(mutex::build(rng, tier)),
+        "sem" => Some(sem::build(rng, tier)),
+        "syncflag" => Some(syncflag::build(rng, tier)),
         _ => None,
     }
 }
 
 pub fn det_families() -> Vec<&'static str> {
-    vec!["mutex"]
+    vec!["mutex", "sem", "syncflag"]
 }
 
 pub mod live_park;
